@@ -59,3 +59,36 @@ def real_dump(snap, rootrel=b"root"):
         kind = KIND.get(e[1] & 0o170000, 9)
         out.add((p[len(rootrel) + 1:], kind, unhex(e[7]) if kind == 2 else b""))
     return out
+
+
+def evaluate(ck, dcases, stats, what, coq_eval, tag):
+    """dcases: list of (id, term, desc, res).  Reports disagreements as (model-side) tie violations and counts into stats."""
+    if not dcases:
+        return
+    devals, derrs = coq_eval([(c[0], c[1]) for c in dcases], header=HEADER, tag=tag)
+    if derrs:
+        ck.violation("T2d: Coq evaluation of the dynamic-kernel cases failed", {"log": derrs[0][-1500:]}, False)
+    for cid, term, desc, res in dcases:
+        got = devals.get(cid)
+        if got is None or len(got) < 4:
+            continue
+        bad, ncmp, left, mtree = decode(got)
+        stats["dyn_traces"] = stats.get("dyn_traces", 0) + 1
+        stats["dyn_calls"] = stats.get("dyn_calls", 0) + ncmp
+        if bad:
+            evs = [e for e in res["trace"] if (e["c"] != "fcntl" or e.get("cmd") != 1) and not (e["c"] == "openat2" and e.get("ret") == -11)]
+            ck.violation("T2d: the dynamic kernel model disagrees with the answer the running kernel gave to a call of " + what,
+                         dict(desc, call_index=bad - 1, around=evs[max(0, bad - 3):bad + 1]), False)
+        elif left:
+            stats["dyn_left_model"] = stats.get("dyn_left_model", 0) + 1
+        else:
+            rtree = real_dump(res.get("snap_after"))
+            stats["dyn_trees"] = stats.get("dyn_trees", 0) + 1
+            if mtree != rtree:
+                ck.violation("T2d: after replaying the calls of " + what + " the model's tree differs from the real tree",
+                             dict(desc, only_in_model=sorted(str(x) for x in mtree - rtree)[:8], only_in_real=sorted(str(x) for x in rtree - mtree)[:8]), False)
+
+
+def coverage(stats):
+    return {"dynamic_kernel_traces_validated": stats.get("dyn_traces", 0), "dynamic_kernel_calls_compared": stats.get("dyn_calls", 0),
+            "dynamic_kernel_final_trees_compared": stats.get("dyn_trees", 0), "dynamic_kernel_traces_leaving_the_model": stats.get("dyn_left_model", 0)}
